@@ -130,12 +130,16 @@ def is_known(known, pid, clause, key):
 
 
 # --------------------------------------------------------------- minimisation
-def minimise(prop, spec, clause, budget=300, key=None):
+def minimise(prop, spec, clause, budget=300, key=None, wall_s=120.0):
     """Delta-debug the tape; the violated clause id and the violation key are preserved (so that minimising an unlisted
     violation can never drift into a listed known finding of the same clause)."""
     calls = [0]
+    t_end = time.time() + wall_s
 
     def fails(values):
+        if time.time() > t_end:
+            calls[0] = budget  # wall budget used up: stop shrinking, keep what we have
+            return None
         calls[0] += 1
         s = dict(spec, tape=values)
         try:
@@ -200,6 +204,7 @@ def minimise(prop, spec, clause, budget=300, key=None):
     # strip trailing zeros (tape returns 0 past its end)
     while cur and cur[-1] == 0:
         cur.pop()
+    t_end = time.time() + 600.0
     r = fails(cur)
     if r is None:  # pragma: no cover - stripping zeros is semantics-preserving
         return None
